@@ -10,6 +10,7 @@
 namespace hz {
 
 static const size_t kMaxDoc = 65536;
+static const size_t kMaxBomb = 3u << 20;   // nesting bombs may be deeper than a document is long: up to 400 000 levels
 
 static int64_t MemoryBound(size_t inputBytes) { return (1ll << 20) + static_cast<int64_t>(inputBytes) * (64 + 2 * 160); }
 
@@ -273,7 +274,7 @@ static Outcome UtfMarkLeg(RunCtx& ctx)
 
 static std::string NestBomb(Source& s, int archive)
 {
-	static const uint32_t depths[] = { 50, 500, 3000, 20000, 60000 };
+	static const uint32_t depths[] = { 50, 500, 3000, 20000, 60000, 150000, 400000 };
 	const uint32_t n = s.pick(sim::L_FAULT, depths);
 	std::string b;
 	if (archive == A_MSGPACK)
@@ -286,20 +287,24 @@ static std::string NestBomb(Source& s, int archive)
 	}
 	else if (archive == A_JSON)
 	{
-		if (s.chance(sim::L_FAULT, 1, 2)) { b.assign(n, '['); }
-		else for (uint32_t i = 0; i < n / 5; ++i) b += "{\"a\":";
-		b += "1";
+		// half of the bombs are closed properly: a well-formed document whose DOM is really built (and has to be destroyed again)
+		const bool closed = s.chance(sim::L_FAULT, 1, 2);
+		if (s.chance(sim::L_FAULT, 1, 2)) { b.assign(n, '['); b += "1"; if (closed) b.append(n, ']'); }
+		else { uint32_t k = 0; for (; k < n / 5; ++k) b += "{\"a\":"; b += "1"; if (closed) b.append(k, '}'); }
 	}
 	else if (archive == A_XML)
 	{
+		const bool closed = s.chance(sim::L_FAULT, 1, 2);
 		b = "<?xml version=\"1.0\"?>";
-		for (uint32_t i = 0; i < n / 3; ++i) b += "<a>";
+		uint32_t k = 0;
+		for (; k < n / 3; ++k) b += "<a>";
+		if (closed) for (uint32_t i = 0; i < k; ++i) b += "</a>";
 	}
 	else
 	{
 		b.assign(n, '"');
 	}
-	if (b.size() > kMaxDoc) b.resize(kMaxDoc);
+	if (b.size() > kMaxBomb) b.resize(kMaxBomb);
 	return b;
 }
 
@@ -399,7 +404,7 @@ Outcome RunC02(RunCtx& ctx)
 		const uint32_t n = 1 + s.draw(sim::L_FAULT, 4);
 		for (uint32_t i = 0; i < n; ++i) what += CorruptOnce(s, sim::L_FAULT, bytes, archive == A_MSGPACK, ctx) + " ";
 	}
-	if (bytes.size() > kMaxDoc) bytes.resize(kMaxDoc);
+	if (bytes.size() > (mode == 14 ? kMaxBomb : kMaxDoc)) bytes.resize(mode == 14 ? kMaxBomb : kMaxDoc);
 	out.nontrivial = bytes != validBytes;
 	ctx.note("corruption: " + what);
 	if (ctx.describe) ctx.note("bytes(" + std::to_string(bytes.size()) + "): " + sim::hex(bytes, 400));
